@@ -246,7 +246,31 @@ var verifSharedOpts = []Option{Entrypoint(""), Recover(true), AllowInvalidUTF8(f
 {{if not .Optimized}}	Memoize(false), Debug(false),
 {{end}}}
 
+// verifTable: a program's table of options from which calls take prefixes (table[:k]...).
+var verifTable = []Option{Entrypoint(""), Recover(true), AllowInvalidUTF8(false), MaxExpressions(0), GlobalStore("t", 1), Recover(true), AllowInvalidUTF8(false), MaxExpressions(0)}
+
 func verifRun(c *mon.Case) *mon.Result {
+	if c.TableOpts > 0 && c.TableOpts <= len(verifTable) {
+		res := &mon.Result{ID: c.ID}
+		in := append([]byte{}, c.Input...)
+		var val any
+		var err error
+		func() {
+			defer func() {
+				if e := recover(); e != nil {
+					res.Panic = mon.CanonPanic(e)
+				}
+			}()
+			val, err = Parse(c.File, in, verifTable[:c.TableOpts]...)
+		}()
+		res.Val = mon.Canon(val)
+		if err == nil {
+			res.ErrNil = true
+		} else {
+			res.ErrStr = err.Error()
+		}
+		return res
+	}
 	res := &mon.Result{ID: c.ID}
 	tr := &mon.Trace{Stress: c.Stress, Max: c.MaxEvents}
 	var vp *parser
